@@ -26,7 +26,8 @@ def genSharing : Sharing :=
   ⟨!(genByRef "CreateClassStmt" "attributes").isEmpty,
    !(genByRef "CreateAssociationStmt" "source_keys").isEmpty || !(genByRef "CreateAssociationStmt" "target_keys").isEmpty⟩
 
-/-- **mutators_footprint**: each listed mutation (create / delete / modify instance, relate / unrelate,
+/-- **mutators_footprint**: each listed mutation (create — also `new` with referential arguments and its batch
+    relate, `Mut.newArgs` — / delete / modify instance, relate / unrelate,
     append / insert / delete_attribute, define_unique_identifier) leaves every group of mutable objects of the
     metamodel outside its write set `Mut.writes` unchanged, never changes the class kinds, and writes a
     loader-owned object (a statement) only if it edits an attribute list that some class holds by reference. -/
@@ -115,6 +116,25 @@ theorem later_builds_fresh (sh : Sharing) (hs : sh.classAttrsByRef = false) (ops
   have : (List.foldl (step sh) World.init ops).stmts = inputsOf ops := hst
   rw [this]
 
+/-- **clone_writes_target_only**: `m_k.clone(instance of m_j)` (model: read every attribute of the instance through
+    the chain of referential properties, then `new` on `m_k` with the values read) writes nothing but `m_k`: the
+    loader's statements and every other metamodel — the source `m_j` included when `j ≠ k` — are as before, in
+    every state a history can reach. -/
+theorem clone_writes_target_only (sh : Sharing) (hs : sh.classAttrsByRef = false) (ops : List OpC)
+    (k j : Nat) (kind : String) (id : Nat) :
+    (stepC sh (runC sh ops) (.cloneInto k j kind id)).stmts = (runC sh ops).stmts ∧
+    ∀ i, i ≠ k → (stepC sh (runC sh ops) (.cloneInto k j kind id)).metas[i]? = (runC sh ops).metas[i]? :=
+  Pyx.Heap.clone_writes_target_only sh (runC sh ops) (good_runC sh hs ops) k j kind id
+
+/-- **noninterference_clone**: histories may also clone instances from one built metamodel into another.  A clone
+    into `m_k` is, for `m_k`, a `new` with the values read from the source at that moment (`resolveAll` makes this
+    replacement along the history); with that reading, what is observable of `m_k` again depends only on the inputs
+    accepted before its build, its build, and the mutations — clones into it included — applied to itself. -/
+theorem noninterference_clone (sh : Sharing) (hs : sh.classAttrsByRef = false) (ops : List OpC) (k : Nat) :
+    observe (runC sh ops) k = observe (run sh (project k 0 (resolveAll sh World.init ops))) 0 := by
+  rw [runC_eq_run]
+  exact noninterference sh hs _ k
+
 /-! ## non-vacuity and necessity -/
 
 def exSchema : List Stmt :=
@@ -133,6 +153,15 @@ example : ((observe (run genSharing exOps) 1).map (fun o => o.classes.map (fun c
     some [("A", 0), ("B", 2)] := by decide
 example : ((observe (run genSharing exOps) 0).map (fun o => o.classes.map (fun c => (c.kind, c.attrs.length, c.rows.length)))) =
     some [("A", 2, 1), ("B", 3, 2)] := by decide
+
+/-- `new` with a referential argument relates the new row (B_Id = 7 finds the B row with Id 7), and a clone of
+    the A row of the first metamodel into the second one links there as well, leaving the first untouched -/
+example :
+    let ops : List OpC := [.op (.input exSchema), .op .build, .op .build,
+      .op (.mutate 0 (.newArgs "A" [.int 2, .int 7])), .cloneInto 1 0 "A" 1]
+    ((observe (runC genSharing ops) 0).map (fun o => o.assocs.map (fun a => (a.links.src 0)))) = some [[0, 1]] ∧
+    ((observe (runC genSharing ops) 1).map (fun o => o.assocs.map (fun a => (a.links.src 0)))) = some [[0, 1]] := by
+  decide
 
 /-- necessity of the guard: if `define_class` kept the statement's attribute list, appending an attribute to a
     class of the first metamodel would show in the second one -/
